@@ -363,7 +363,7 @@ func main() {
 		Assumptions: []string{"refrv reference interpreter (written from the unprivileged spec)", "refir evaluator", "AMO/LR/SC only at naturally aligned addresses; accesses crossing 2^XLEN skipped"},
 		Cases: func(t string) int {
 			if t == "thorough" {
-				return len(pairs) * 1200
+				return len(pairs) * 8000
 			}
 			return len(pairs) * 200
 		},
